@@ -288,11 +288,19 @@ impl Primitive {
     pub fn as_integer_cast(&self) -> Result<i64, TransformError> {
         match self {
             Primitive::Integer(n) => Ok(*n),
-            Primitive::PositiveInteger(n) => Ok(*n as i64),
+            Primitive::PositiveInteger(n) => i64::try_from(*n).map_err(|_| {
+                TransformError::OutOfBounds(format!("{} does not fit in an Integer", n))
+            }),
             Primitive::Boolean(b) => Ok(*b as u8 as i64),
             Primitive::Number(n) => {
                 if float_ne(n.fract(), 0.0) {
                     Err(wrong_argument!(PrimitiveKind::Integer, self))
+                } else if *n < i64::MIN as f64 || *n >= i64::MAX as f64 {
+                    // `as i64` saturates silently: a number beyond the range is not that integer
+                    Err(TransformError::OutOfBounds(format!(
+                        "{} does not fit in an Integer",
+                        n
+                    )))
                 } else {
                     Ok(*n as i64)
                 }
@@ -325,6 +333,12 @@ impl Primitive {
             Primitive::Number(n) => {
                 if float_ne(n.fract(), 0.0) || float_lt(*n, 0.0) {
                     Err(wrong_argument!(PrimitiveKind::PositiveInteger, self))
+                } else if *n >= usize::MAX as f64 {
+                    // `as usize` saturates silently: a number beyond the range is not that index
+                    Err(TransformError::OutOfBounds(format!(
+                        "{} does not fit in a PositiveInteger",
+                        n
+                    )))
                 } else {
                     Ok(*n as usize)
                 }
